@@ -95,7 +95,10 @@ def run(ctx):
         ban = prog.an(b)
         calls = [blk for blk in b.blocks if blk.term.kind == 'call' and not blk.cleanup]
         tk = [blk for blk in calls if blk.term.rcallee and strip_generics(blk.term.rcallee) == 'deadpool::managed::Object::take']
-        ok = len(tk) == 1 and tk[0].term.dest.local == 0 and any(s[0] == 'field' and s[1].endswith('Connection.conn') for s in sources(ban, tk[0].term.args[0]))
+        # the wrapped pool object: the field of this Connection type whose type is the pool's Object (whatever it is called)
+        cadt = path.rsplit('::', 1)[0]
+        wrapped = {'%s.%s' % (cadt, f['name']) for a in c.adts if a['path'] == cadt for v in a.get('variants', []) for f in v['fields'] if 'deadpool::managed::Object<' in f['ty']}
+        ok = len(tk) == 1 and tk[0].term.dest.local == 0 and len(wrapped) == 1 and any(s[0] == 'field' and s[1] in wrapped for s in sources(ban, tk[0].term.args[0]))
         ctx.ob('R17.2', '%s forwards to Object::take of the wrapped object' % path.split('::', 1)[1], ok, ctx.where(b), '', construct='take:' + path)
     ctx.floor('R17.2', 'Connection::take siblings', n, 3)
 
